@@ -4,11 +4,12 @@
    (what holds at Ok) together with [InvE k] (what is known of the state an
    [Err] carries).  The ghost moves with the nesting level: [up k] after
    inc_level, back to [k] after dec_level; [rst k] inside an if / for / switch
-   header (reset_level), back to [k] when the saved level is restored.
+   header (reset_level), back to [k] when the saved level is restored; and
+   with Parser::nested: [dup k] while a recursion hub is open.
 
-   From 13 closure facts about the PRIMITIVES ([inv_closed]: next, goback,
-   line_end_comment, drain, upd_cur _ None and the level updates -- productions
-   touch the state in no other way) the framework derives the invariant for
+   From 17 closure facts about the PRIMITIVES ([inv_closed]: next, goback,
+   line_end_comment, drain, upd_cur _ None, the level updates and the depth
+   updates of nested -- productions touch the state in no other way) the framework derives the invariant for
    EVERY production and loop of [step self], given it for the fields of [self]
    (one lemma L_<production> each, [Good_step]), hence for [parsers_at d] at
    every depth ([Good_parsers_at], [lift_Good]) and for the entry points
@@ -45,6 +46,7 @@ Arguments s_lp : default implicits.
 Arguments s_ln : default implicits.
 Arguments s_d : default implicits.
 Arguments s_started : default implicits.
+Arguments s_depth : default implicits.
 Arguments d_next : default implicits.
 Arguments d_goback : default implicits.
 Arguments d_drain : default implicits.
@@ -64,6 +66,9 @@ Arguments bind : default implicits.
 Arguments upd_cur : default implicits.
 Arguments upd_d : default implicits.
 Arguments upd_level : default implicits.
+Arguments upd_depth : default implicits.
+Arguments nested : default implicits.
+Arguments prev_end : default implicits.
 Arguments unexpected : default implicits.
 Arguments else_error : default implicits.
 Arguments else_error_at : default implicits.
@@ -312,9 +317,9 @@ Variables (A G D C E : Type) (OPS : ops A G D C).
 Notation pstate := (Core.pstate A G D E).
 Variable K : Type.
 Variable Inv InvE : K -> pstate -> Prop.
-Variable up rst : K -> K.
+Variable up rst dup : K -> K.
 
-(* The 13 closure facts.  [ic_goback]: backtracking only goes to a mark taken
+(* The 17 closure facts.  [ic_goback]: backtracking only goes to a mark taken
    ([preback]) in an earlier state that satisfied the invariant with the same
    ghost.  [ic_upd_cur]: productions set the current token only through
    next / goback / line_end_comment or to None.  [ic_drain]: the only update of
@@ -328,6 +333,14 @@ Record inv_closed : Prop := {
   ic_decE : forall k s, InvE (up k) s -> InvE k (dec_level s);
   ic_reset : forall k s, Inv k s -> Inv (rst k) (reset_level s);
   ic_restore : forall k s s', Inv k s -> Inv (rst k) s' -> Inv k (upd_level s' (s_lp s) (s_ln s));
+  (* Parser::nested: the ghost is [dup k] while a recursion hub is open; the
+     body runs only below the limit; at the limit the hub fails at once *)
+  ic_dinc : forall k s, s_depth s < MAX_NESTING -> Inv k s ->
+                        Inv (dup k) (upd_depth s (S (s_depth s)));
+  ic_dfail : forall k s, Inv k s ->
+                         InvE k (upd_depth (upd_depth s (S (s_depth s))) (s_depth s));
+  ic_ddec : forall k s, Inv (dup k) s -> Inv k (upd_depth s (pred (s_depth s)));
+  ic_ddecE : forall k s, InvE (dup k) s -> InvE k (upd_depth s (pred (s_depth s)));
   ic_upd_cur : forall k s, Inv k s -> Inv k (upd_cur s None);
   ic_drain : forall k s c s', drain OPS s = (c, s') -> Inv k s -> Inv k s';
   ic_next : forall k s, Inv k s -> post (Inv k) (InvE k) (next OPS s);
@@ -335,20 +348,24 @@ Record inv_closed : Prop := {
   ic_line_end : forall c k s, Inv k s -> post (Inv k) (InvE k) (line_end_comment OPS c s)
 }.
 End Closed.
-Arguments inv_closed {A G D C E} OPS {K} Inv InvE up rst.
-Arguments ic_err {A G D C E OPS K Inv InvE up rst} _.
-Arguments ic_upE {A G D C E OPS K Inv InvE up rst} _.
-Arguments ic_rstE {A G D C E OPS K Inv InvE up rst} _.
-Arguments ic_inc {A G D C E OPS K Inv InvE up rst} _.
-Arguments ic_dec {A G D C E OPS K Inv InvE up rst} _.
-Arguments ic_decE {A G D C E OPS K Inv InvE up rst} _.
-Arguments ic_reset {A G D C E OPS K Inv InvE up rst} _.
-Arguments ic_restore {A G D C E OPS K Inv InvE up rst} _.
-Arguments ic_upd_cur {A G D C E OPS K Inv InvE up rst} _.
-Arguments ic_drain {A G D C E OPS K Inv InvE up rst} _.
-Arguments ic_next {A G D C E OPS K Inv InvE up rst} _.
-Arguments ic_goback {A G D C E OPS K Inv InvE up rst} _.
-Arguments ic_line_end {A G D C E OPS K Inv InvE up rst} _.
+Arguments inv_closed {A G D C E} OPS {K} Inv InvE up rst dup.
+Arguments ic_err {A G D C E OPS K Inv InvE up rst dup} _.
+Arguments ic_upE {A G D C E OPS K Inv InvE up rst dup} _.
+Arguments ic_rstE {A G D C E OPS K Inv InvE up rst dup} _.
+Arguments ic_inc {A G D C E OPS K Inv InvE up rst dup} _.
+Arguments ic_dec {A G D C E OPS K Inv InvE up rst dup} _.
+Arguments ic_decE {A G D C E OPS K Inv InvE up rst dup} _.
+Arguments ic_reset {A G D C E OPS K Inv InvE up rst dup} _.
+Arguments ic_restore {A G D C E OPS K Inv InvE up rst dup} _.
+Arguments ic_dinc {A G D C E OPS K Inv InvE up rst dup} _.
+Arguments ic_dfail {A G D C E OPS K Inv InvE up rst dup} _.
+Arguments ic_ddec {A G D C E OPS K Inv InvE up rst dup} _.
+Arguments ic_ddecE {A G D C E OPS K Inv InvE up rst dup} _.
+Arguments ic_upd_cur {A G D C E OPS K Inv InvE up rst dup} _.
+Arguments ic_drain {A G D C E OPS K Inv InvE up rst dup} _.
+Arguments ic_next {A G D C E OPS K Inv InvE up rst dup} _.
+Arguments ic_goback {A G D C E OPS K Inv InvE up rst dup} _.
+Arguments ic_line_end {A G D C E OPS K Inv InvE up rst dup} _.
 
 (* ------------------------------------------------------------------ the framework *)
 
@@ -362,12 +379,12 @@ Notation nodeT := (node A C).
 
 Variable K : Type.
 Variable Inv InvE : K -> pstate -> Prop.
-Variable up rst : K -> K.
+Variable up rst dup : K -> K.
 
 (* a state transformer / production keeps the invariant *)
 Notation pres p := (forall k s, Inv k s -> post (Inv k) (InvE k) (p s)).
 
-Hypothesis HC : inv_closed OPS Inv InvE up rst.
+Hypothesis HC : inv_closed OPS Inv InvE up rst dup.
 
 Lemma H_err : forall k s, Inv k s -> InvE k s.
 Proof. destruct HC; assumption. Qed.
@@ -384,6 +401,16 @@ Proof. destruct HC; assumption. Qed.
 Lemma H_reset : forall k s, Inv k s -> Inv (rst k) (reset_level s).
 Proof. destruct HC; assumption. Qed.
 Lemma H_restore : forall k s s', Inv k s -> Inv (rst k) s' -> Inv k (upd_level s' (s_lp s) (s_ln s)).
+Proof. destruct HC; assumption. Qed.
+Lemma H_dinc : forall k s, s_depth s < MAX_NESTING -> Inv k s ->
+  Inv (dup k) (upd_depth s (S (s_depth s))).
+Proof. destruct HC; assumption. Qed.
+Lemma H_dfail : forall k s, Inv k s ->
+  InvE k (upd_depth (upd_depth s (S (s_depth s))) (s_depth s)).
+Proof. destruct HC; assumption. Qed.
+Lemma H_ddec : forall k s, Inv (dup k) s -> Inv k (upd_depth s (pred (s_depth s))).
+Proof. destruct HC; assumption. Qed.
+Lemma H_ddecE : forall k s, InvE (dup k) s -> InvE k (upd_depth s (pred (s_depth s))).
 Proof. destruct HC; assumption. Qed.
 Lemma H_upd_cur : forall k s, Inv k s -> Inv k (upd_cur s None).
 Proof. destruct HC; assumption. Qed.
@@ -404,6 +431,19 @@ Lemma L_inc_level site k s :
   Inv k s -> post (Inv (up k)) (InvE k) (inc_level s site).
 Proof. intros H. unfold inc_level. msteps. Qed.
 Local Hint Resolve L_inc_level : lift.
+
+(* Parser::nested around a body that keeps the invariant *)
+Lemma L_nested X site (f : pstate -> res X) :
+  pres f -> pres (nested site f).
+Proof.
+  intros Hf k s H. unfold nested. cbv zeta. cbn [s_depth upd_depth].
+  destruct (S MAX_NESTING <=? S (s_depth s)) eqn:Hlim.
+  - apply H_dfail, H.
+  - apply Nat.leb_gt in Hlim.
+    assert (Hb : post (Inv (dup k)) (InvE (dup k)) (f (upd_depth s (S (s_depth s))))).
+    { apply Hf, H_dinc; [ lia | exact H ]. }
+    destruct (f (upd_depth s (S (s_depth s)))); simpl in *; auto using H_ddec, H_ddecE.
+Qed.
 
 Lemma L_cur_tok site : pres (fun s => cur_tok s site).
 Proof. intros k s H. unfold cur_tok. msteps. Qed.
@@ -463,7 +503,7 @@ Lemma L_semi_unless_brace site : pres (semi_unless_brace OPS site).
 Proof. prod semi_unless_brace. Qed.
 Local Hint Resolve L_semi_unless_brace : lift.
 
-Lemma L_finish_field names typ : pres (finish_field OPS names typ).
+Lemma L_finish_field c names typ : pres (finish_field OPS c names typ).
 Proof. prod finish_field. Qed.
 Local Hint Resolve L_finish_field : lift.
 
@@ -874,7 +914,7 @@ Local Hint Resolve L_entry_stmt : lift.
 Lemma Good_step : Good (step OPS self).
 Proof.
   split; cbn [step k_type k_type_or_none k_expr k_unary k_binary k_litvalue k_block k_stmt k_if];
-    auto with lift.
+    try apply L_nested; auto with lift.
 Qed.
 
 End Step.
@@ -925,13 +965,13 @@ Variables (A G D C E : Type) (OPS : ops A G D C).
 Notation pstate := (Core.pstate A G D E).
 Variable K : Type.
 Variable Inv InvE : K -> pstate -> Prop.
-Variable up rst : K -> K.
-Hypothesis HC : inv_closed OPS Inv InvE up rst.
+Variable up rst dup : K -> K.
+Hypothesis HC : inv_closed OPS Inv InvE up rst dup.
 Hypothesis Hcatch : forall k s, InvE k s -> Inv k s.
 
 Theorem lift_Good d : Good Inv InvE (parsers_at OPS d).
 Proof.
-  apply (Good_parsers_at A G D C E OPS K Inv InvE up rst HC (fun _ => True)); auto.
+  apply (Good_parsers_at A G D C E OPS K Inv InvE up rst dup HC (fun _ => True)); auto.
   intros self _ HG. eapply interface_loop_catch; eassumption.
 Qed.
 
@@ -965,13 +1005,14 @@ Record prim_closed : Prop := {
   J_line_end_err : forall c s e s', J s -> line_end_comment OPS c s = Err e s' -> J s';
   J_drain : forall s c s', J s -> drain OPS s = (c, s') -> J s';
   J_upd_cur : forall s, J s -> J (upd_cur s None);
-  J_level : forall s lp ln, J s -> J (upd_level s lp ln)
+  J_level : forall s lp ln, J s -> J (upd_level s lp ln);
+  J_depth : forall s n, J s -> J (upd_depth s n)
 }.
 
 Hypothesis HJ : prim_closed.
 
 Lemma prim_closed_inv_closed :
-  inv_closed OPS (fun _ : unit => J) (fun _ => J) (fun k => k) (fun k => k).
+  inv_closed OPS (fun _ : unit => J) (fun _ => J) (fun k => k) (fun k => k) (fun k => k).
 Proof.
   destruct HJ. split.
   - auto.
@@ -982,6 +1023,10 @@ Proof.
   - intros _ s H. unfold dec_level. apply J_level0; exact H.
   - intros _ s H. unfold reset_level. apply J_level0; exact H.
   - intros _ s s' _ H. apply J_level0; exact H.
+  - intros _ s _ H. apply J_depth0; exact H.
+  - intros _ s H. apply J_depth0, J_depth0; exact H.
+  - intros _ s H. apply J_depth0; exact H.
+  - intros _ s H. apply J_depth0; exact H.
   - auto.
   - intros _ s c s' Hd H. eauto.
   - intros _ s H. destruct (next OPS s) as [[] s'| | |] eqn:Hn; simpl; eauto.
@@ -992,10 +1037,10 @@ Proof.
 Qed.
 
 Theorem lift_invariant_Good d : Good (fun _ : unit => J) (fun _ => J) (parsers_at OPS d).
-Proof. apply (lift_Good _ _ _ _ _ OPS _ _ _ _ _ prim_closed_inv_closed). auto. Qed.
+Proof. apply (lift_Good _ _ _ _ _ OPS _ _ _ _ _ _ prim_closed_inv_closed). auto. Qed.
 
 Theorem lift_invariant_post d s : J s -> post J J (parse_file OPS (parsers_at OPS d) s).
-Proof. apply (lift_parse_file _ _ _ _ _ OPS _ _ _ _ _ prim_closed_inv_closed (fun _ _ H => H) d tt). Qed.
+Proof. apply (lift_parse_file _ _ _ _ _ OPS _ _ _ _ _ _ prim_closed_inv_closed (fun _ _ H => H) d tt). Qed.
 
 Theorem lift_invariant d s x s' :
   J s -> parse_file OPS (parsers_at OPS d) s = Ok x s' -> J s'.
@@ -1007,7 +1052,7 @@ Proof. intros H. apply post_Err_inv with (P := J). apply lift_invariant_post, H.
 Theorem lift_invariant_expression_post d s :
   J s -> post J J (entry_expression OPS (parsers_at OPS d) s).
 Proof.
-  apply (lift_entry_expression _ _ _ _ _ OPS _ _ _ _ _ prim_closed_inv_closed (fun _ _ H => H) d tt).
+  apply (lift_entry_expression _ _ _ _ _ OPS _ _ _ _ _ _ prim_closed_inv_closed (fun _ _ H => H) d tt).
 Qed.
 Theorem lift_invariant_expression d s x s' :
   J s -> entry_expression OPS (parsers_at OPS d) s = Ok x s' -> J s'.
@@ -1018,7 +1063,7 @@ Proof. intros H. apply post_Err_inv with (P := J). apply lift_invariant_expressi
 
 Theorem lift_invariant_stmt_post d s : J s -> post J J (entry_stmt OPS (parsers_at OPS d) s).
 Proof.
-  apply (lift_entry_stmt _ _ _ _ _ OPS _ _ _ _ _ prim_closed_inv_closed (fun _ _ H => H) d tt).
+  apply (lift_entry_stmt _ _ _ _ _ OPS _ _ _ _ _ _ prim_closed_inv_closed (fun _ _ H => H) d tt).
 Qed.
 Theorem lift_invariant_stmt d s x s' :
   J s -> entry_stmt OPS (parsers_at OPS d) s = Ok x s' -> J s'.
@@ -1038,6 +1083,7 @@ Arguments J_line_end_err {A G D C E OPS J} _.
 Arguments J_drain {A G D C E OPS J} _.
 Arguments J_upd_cur {A G D C E OPS J} _.
 Arguments J_level {A G D C E OPS J} _.
+Arguments J_depth {A G D C E OPS J} _.
 
 (* ------------------------------------------------------------------ TWO-STATE version:
    a reflexive and transitive relation between the state before and the state
@@ -1062,7 +1108,8 @@ Record rel_closed : Prop := {
   R_line_end_err : forall c s e s', line_end_comment OPS c s = Err e s' -> R s s';
   R_drain : forall s c s', drain OPS s = (c, s') -> R s s';
   R_upd_cur : forall s, R s (upd_cur s None);
-  R_level : forall s lp ln, R s (upd_level s lp ln)
+  R_level : forall s lp ln, R s (upd_level s lp ln);
+  R_depth : forall s n, R s (upd_depth s n)
 }.
 
 Hypothesis HR : rel_closed.
@@ -1072,7 +1119,7 @@ Proof.
   destruct HR. split; intros; eauto.
 Qed.
 
-Lemma rel_closed_inv_closed : inv_closed OPS R R (fun k => k) (fun k => k).
+Lemma rel_closed_inv_closed : inv_closed OPS R R (fun k => k) (fun k => k) (fun k => k).
 Proof.
   pose proof (fun k => prim_closed_inv_closed _ _ _ _ _ OPS _ (rel_closed_prim_closed k)) as HI.
   split; intros; try assumption.
@@ -1081,6 +1128,10 @@ Proof.
   - apply (ic_decE (HI k) tt); assumption.
   - apply (ic_reset (HI k) tt); assumption.
   - apply (ic_restore (HI k) tt s); assumption.
+  - apply (ic_dinc (HI k) tt); assumption.
+  - apply (ic_dfail (HI k) tt); assumption.
+  - apply (ic_ddec (HI k) tt); assumption.
+  - apply (ic_ddecE (HI k) tt); assumption.
   - apply (ic_upd_cur (HI k) tt); assumption.
   - eapply (ic_drain (HI k) tt); eassumption.
   - apply (ic_next (HI k) tt); assumption.
@@ -1089,7 +1140,7 @@ Proof.
 Qed.
 
 Theorem lift_relation_Good d : Good R R (parsers_at OPS d).
-Proof. apply (lift_Good _ _ _ _ _ OPS _ R R _ _ rel_closed_inv_closed). auto. Qed.
+Proof. apply (lift_Good _ _ _ _ _ OPS _ R R _ _ _ rel_closed_inv_closed). auto. Qed.
 
 (* from the L_ lemma of a production to the relation between its end points *)
 Lemma rel_of_post X (p : pstate -> Core.res A G D E X) :
@@ -1136,3 +1187,4 @@ Arguments R_line_end_err {A G D C E OPS R} _.
 Arguments R_drain {A G D C E OPS R} _.
 Arguments R_upd_cur {A G D C E OPS R} _.
 Arguments R_level {A G D C E OPS R} _.
+Arguments R_depth {A G D C E OPS R} _.
